@@ -104,7 +104,9 @@ CLAIMS = {
              "element counts are translated from matrix.rs on every run and the real byte ranges reported by the cfg-gated hook must equal the model's. History independence of the one "
              "path that keeps state in the slab (companion file C10_Matrix, from C04_Compressed): the code-level model of fuzzy_match_optimal takes the prior content of the score row and of the "
              "back-pointer cells as arguments and returns the same result for every such content (C10_matrix_history_independent: it reads a cell of either only after writing it in the same "
-             "call). Totality, and history independence of the real code: every case runs in a build with overflow checks and debug assertions on a fresh, a used and a poisoned matcher; "
+             "call); C10_matrix_indices_in_range: every side condition of the matrix path's index arithmetic (Model/OptImpl.lean: optimalSafe - one conjunct per u16/usize subtraction and per slice "
+             "or index expression of setup, score_row, populate_matrix, the best-cell search and reconstruct_optimal_path, plus termination of the traceback loop) holds for every window, "
+             "needle, configuration and prior scratch content. Totality, and history independence of the real code: every case runs in a build with overflow checks and debug assertions on a fresh, a used and a poisoned matcher; "
              "any panic or difference is a violation (absence of panics and overflow: correspondence, not theorem)."),
     "C16": dict(
         technique="Lean 4 theorems over all code points (kernel-decided complete tables lifted by range lemmas) + exhaustive model/implementation correspondence",
